@@ -496,7 +496,10 @@ class HistogramND(HistogramBase):
         # TODO: inplace
         new_one = self.copy()
         axis_id = self._get_axis(axis)
-        new_one._frequencies = np.cumsum(new_one.frequencies, axis_id)
+        frequencies = np.cumsum(new_one.frequencies, axis_id)
+        # (numpy accumulates small integers in a wider type: the histogram follows)
+        new_one._coerce_dtype(frequencies.dtype)
+        new_one._frequencies = frequencies.astype(new_one.dtype)
         return new_one
 
     def projection(self, *axes: Axis, **kwargs) -> HistogramBase:
